@@ -303,6 +303,36 @@ WellFormed(t) ==
   /\ \A n \in t : n.k # "link" => n.tgt = NONE
 
 ---------------------------------------------------------------------------
+(* The command line front end (signac/__main__.py).  Every command is its own process started in a directory cwd;
+   it calls get_project() / init_project(os.getcwd()) and os.getcwd() is the PHYSICAL path of cwd (CAL_Cwd).  The
+   command-level operators are COMPOSITIONS of the library-level ones, so the two front ends cannot drift apart.
+     signac job / find / statepoint / ...   answer for the project CliProject(t, cwd); exit status 1 without one
+     signac job -p '<sp>'                   prints <project>/workspace/<id>: identifies the answering project
+     signac find                            prints the names standing in that project's workspace; a dangling
+                                            id-named link makes it fail (exit 1) - CAL_CliFind
+     signac statepoint                      reads every job of that project: exit 0 iff every workspace entry is a job
+                                            directory or a link to a job directory of the SAME id - CAL_CliStatepoint
+     signac init                            = InitProject at the physical cwd: exit 0 whether or not the project exists
+                                            (a second init is a no-op), creates the project exactly there          *)
+CliProject(t, cwd) == GetProject(t, Phys(t, cwd), TRUE)
+CliStatus(a)       == IF a.ok THEN 0 ELSE 1
+WsEntries(t, pr)   == {n \in t : Len(n.p) = Len(pr) + 2 /\ IsPrefix(Append(pr, W), n.p)}
+CliFind(t, cwd) ==
+  LET a == CliProject(t, cwd) IN
+  IF ~a.ok THEN [st |-> 1, ids |-> <<>>]
+  ELSE IF \E n \in WsEntries(t, a.path) : n.k = "link" /\ ~Has(t, n.tgt) THEN [st |-> 1, ids |-> <<>>]
+  ELSE [st |-> 0, ids |-> SetToSeq({Last(n.p) : n \in WsEntries(t, a.path)})]
+CliStatepointStatus(t, cwd) ==
+  LET a == CliProject(t, cwd) IN
+  IF ~a.ok THEN 1
+  ELSE IF \A n \in WsEntries(t, a.path) :
+            \/ n.k \in {"job", "jobproj"}
+            \/ (n.k = "link" /\ Has(t, n.tgt) /\ At(t, n.tgt).k \in {"job", "jobproj"} /\ Last(n.tgt) = Last(n.p))
+       THEN 0 ELSE 1
+CliInitEnabled(t, cwd) == Exists(t, cwd) /\ InitEnabled(t, Phys(t, cwd))
+CliInit(t, cwd)        == InitProject(t, Phys(t, cwd))
+
+---------------------------------------------------------------------------
 (* queries *)
 Below(t, p)  == {n.p : n \in {m \in t : IsPrefix(p, m.p) /\ m.p # p}}
 Through(t)   == UNION {{n.p \o SubSeq(x, Len(n.tgt) + 1, Len(x)) : x \in {y \in Below(t, n.tgt) : Len(n.p) + Len(y) - Len(n.tgt) <= 7}}
@@ -343,6 +373,14 @@ InitFindsIt  == ph > 0 /\ InitEnabled(t, q) => LET r == InitProject(t, q) IN
                   /\ r.res = OkP(q) /\ GetProject(r.tree, q, FALSE) = OkP(q)
                   /\ \A n \in t : n.k # At(r.tree, n.p).k => n.p = Resolve(r.tree, q)   \* nothing else touched
 (* init_project on an existing project: the tree is unchanged; a second call never changes anything *)
+\* the same promises to the user of the command line (cwd = q)
+CliNearest  == ph > 0 /\ Exists(t, q) => NearestOK(t, Phys(t, q), CliProject(t, q))
+                                          /\ (~CliProject(t, q).ok => CliFind(t, q).st = 1 /\ CliStatepointStatus(t, q) = 1)
+CliInitHere == ph > 0 /\ CliInitEnabled(t, q) =>
+                 LET r == CliInit(t, q) IN
+                 /\ CliProject(r.tree, q) = OkP(Phys(t, q))                  \* exactly there, even below another project
+                 /\ (IsProjAt(t, Phys(t, q)) => r.tree = t)                   \* on an existing project: unchanged
+                 /\ CliInit(r.tree, q).tree = r.tree                          \* a second init is a no-op
 InitIdempotent == [][last' = "init" /\ ph > 0 /\ IsProjAt(t, q) => t' = t]_vars
 SecondInitNoop == [][last = "init" /\ last' = "init" => t' = t]_vars
 \* removal undoes creation exactly (so that the histories create -> remove -> create ... stay inside the grammar)
@@ -370,6 +408,14 @@ CaseOf(tr, qq, base) ==
                   hist |-> ~IsProjAt(tr, qq) /\ Hist(tr, qq),
                   changed |-> IF ~IsProjAt(tr, qq) /\ Hist(tr, qq) THEN Changed(base, InitProject(tr, qq).tree) ELSE <<>>]
             ELSE [enabled |-> FALSE, existing |-> FALSE, res |-> Err, added |-> <<>>, after |-> Err, hist |-> FALSE, changed |-> <<>>],
+   cli |-> IF Exists(tr, qq)
+           THEN [cwd |-> TRUE, which |-> CliProject(tr, qq), find |-> CliFind(tr, qq), spst |-> CliStatepointStatus(tr, qq),
+                 init |-> IF CliInitEnabled(tr, qq)
+                          THEN [enabled |-> TRUE, existing |-> IsProjAt(tr, Phys(tr, qq)), added |-> NodeSeq(CliInit(tr, qq).added),
+                                after |-> CliProject(CliInit(tr, qq).tree, qq)]
+                          ELSE [enabled |-> FALSE, existing |-> FALSE, added |-> <<>>, after |-> Err]]
+           ELSE [cwd |-> FALSE, which |-> Err, find |-> [st |-> 1, ids |-> <<>>], spst |-> 1,
+                 init |-> [enabled |-> FALSE, existing |-> FALSE, added |-> <<>>, after |-> Err]],
    remove |-> IF DeinitEnabled(tr, qq) THEN [enabled |-> TRUE, changed |-> Changed(base, Deinit(tr, qq))]
               ELSE [enabled |-> FALSE, changed |-> <<>>]]
 \* CAL_DeviceBlind: the node sets the harness moves onto the other file system, one set at a time
